@@ -44,7 +44,7 @@ def body (g : Grammar) (x : String) : Option Rule := g.rules.lookup x
 def start (g : Grammar) : String := (g.rules.head?.map (·.1)).getD ""
 /-- Hidden rules never show up as nodes: `_`-prefixed, inlined, or supertypes. -/
 def hidden (g : Grammar) (x : String) : Bool :=
-  x.startsWith "_" || g.inline.contains x || g.supertypes.contains x
+  x.toList.head? == some '_' || g.inline.contains x || g.supertypes.contains x
 end Grammar
 
 def seqOf : List Rule → Rule
